@@ -210,6 +210,7 @@ LEVEL_TEXT = ("Generated search, 12,000 / 150,000 (configuration, string) pairs 
               "boundaries (GC count on a bound, run of exactly limit / limit+1, reverse-complement-only motif hits, "
               "strings shorter than the window, foreign characters); every whole-sequence and last-window verdict is "
               "compared with the documented predicate evaluated in exact arithmetic, and three metamorphic relations "
-              "are checked on the library's own verdicts.")
+              "are checked on the library's own verdicts."
+              ' Strings of 24..40 windows and of 250..340 symbols whose every window satisfies the predicate (optionally spoilt in the first or last window) cover length-dependent code paths.')
 LEVEL_NOTE = ("Trusted: the reference predicate in pbt/oracles.py. Verdicts that hinge on a comparison exactly at a "
               "bound whose float product is inexact are not asserted (counted as float_boundary).")
